@@ -87,6 +87,66 @@ def tlc_schedules(scenario, cfg, num, depth, seed):
     return scheds
 
 
+def graph_cover(scenario, cfg):
+    """Every transition of the two-process state graph of SettingsFS.tla (no crashes; `last` kept in the state, so an edge determines
+    process and primitive): TLC dumps the graph, a greedy walk yields root-to-leaf paths that together cover every edge."""
+    import os
+    import tempfile
+    d = tempfile.mkdtemp(prefix="graph_", dir=core.workdir())
+    core.tlc("settingsfs", "SettingsFS", cfg, workers=1, extra=["-dump", "dot,actionlabels", os.path.join(d, "g")])
+    txt = open(os.path.join(d, "g.dot")).read()
+    node_re = re.compile(r'^(-?\d+) \[label="((?:[^"\\]|\\.)*)"(,style = filled)?', re.M)
+    edge_re = re.compile(r'^(-?\d+) -> (-?\d+) \[label="(\w+)\(\\"(\w+)\\"', re.M)
+    info, roots = {}, []
+    for m in node_re.finditer(txt):
+        lab = m.group(2)
+        lm = re.search(r'last = \[op \|-> \\"(\w+)\\", p \|-> \\"([\w-]+)\\"', lab)
+        om = re.search(r'op = \[p1 \|-> \\"(\w+)\\", p2 \|-> \\"(\w+)\\"\]', lab)
+        info[m.group(1)] = (lm.group(1) if lm else "?", om.groups() if om else ("none", "none"))
+        if m.group(3):
+            roots.append(m.group(1))
+    succ = {}
+    for m in edge_re.finditer(txt):
+        succ.setdefault(m.group(1), []).append((m.group(2), m.group(4)))
+    for v in succ.values():
+        v.sort()
+    unvisited = {(a, b) for a, outs in succ.items() for b, _ in outs}
+    total = len(unvisited)
+    # reach[n]: an unvisited edge is reachable from n (recomputed lazily by walking)
+    paths = []
+    import sys
+    sys.setrecursionlimit(10000)
+
+    def has_unvisited(n, memo):
+        if n in memo:
+            return memo[n]
+        memo[n] = False
+        r = any((n, b) in unvisited or has_unvisited(b, memo) for b, _ in succ.get(n, []))
+        memo[n] = r
+        return r
+    while unvisited:
+        progressed = False
+        for root in roots:
+            memo = {}
+            if not has_unvisited(root, memo):
+                continue
+            n, steps = root, []
+            while succ.get(n):
+                outs = succ[n]
+                nxt = next(((b, p) for b, p in outs if (n, b) in unvisited), None) or \
+                    next(((b, p) for b, p in outs if has_unvisited(b, memo)), None) or outs[0]
+                unvisited.discard((n, nxt[0]))
+                steps.append((nxt[1], info[nxt[0]][0]))
+                n = nxt[0]
+            paths.append({"ops": {"p1": info[root][1][0], "p2": info[root][1][1]}, "steps": steps})
+            progressed = True
+        if not progressed:
+            break
+    import shutil
+    shutil.rmtree(d, ignore_errors=True)
+    return paths, total
+
+
 def run(rep, tier, seed):
     rng = random.Random(seed)
     # ---- M |= P exhaustively (design level) and the pre-fix protocol refuted (sensitivity)
@@ -128,7 +188,19 @@ def run(rep, tier, seed):
             for cfg, n in (("MC_%s_sim0.cfg" % sc, nsched), ("MC_%s_sim.cfg" % sc, nsched // 2)):
                 for i, s in enumerate(tlc_schedules(sc, cfg, n, 90, seed + 1)):
                     sjobs.append((sc, s["ops"], s["steps"], "sched:%s:%s:%d" % (sc, cfg, i)))
-        traces += list(ex.map(lambda a: schedule_run(*a), sjobs))
+        # ---- every transition of the two-process state graphs (edge cover)
+        gjobs, edges = [], 0
+        for sc in ("fresh", "upgrade", "ready"):
+            paths, total = graph_cover(sc, "MC_%s_graph.cfg" % sc)
+            edges += total
+            if tier == "quick":
+                rng.shuffle(paths)
+                paths = paths[:25]
+            for i, pth in enumerate(paths):
+                gjobs.append((sc, pth["ops"], pth["steps"], "graph:%s:%d" % (sc, i)))
+        rep.extra["graph_edges"] = edges
+        rep.extra["graph_paths_replayed"] = len(gjobs)
+        traces += list(ex.map(lambda a: schedule_run(*a), sjobs + gjobs))
         rep.extra["schedules"] = len(sjobs)
     judge(rep, traces)
     rep.rule = ("real evo processes stepped one FS primitive at a time: (a) every crash point k of %d operation/scenario "
